@@ -264,13 +264,13 @@ class RefNode:
             um = A["unit"]
             if a >= len(um) or um[a] is not None:
                 raise qerr("cannot allocate")
+            if self.held() >= self.maxQ or self.num_groups() >= self.maxR:
+                raise qerr("node is full")          # refused: the address stays unallocated
             p = 0
             while p in self.used:
                 p += 1
             self.used.add(p)
             um[a] = p
-            if self.held() >= self.maxQ or self.num_groups() >= self.maxR:
-                raise qerr("node is full")
             oid = self.next_oid
             self.next_oid += 1
             self.ideal.new(oid)
